@@ -140,7 +140,19 @@ class PoolAdapter(Adapter):
                 i, what = args
                 h = o[i]
                 arr = np.ones(h.shape)
-                if what == "add_array":
+                if what.endswith("_free"):
+                    with self._free(True):
+                        if what == "mul_hist_free":
+                            obs["ret"] = h * h.copy()
+                        elif what == "imul_hist_free":
+                            h *= h.copy()
+                        elif what == "div_hist_free":
+                            obs["ret"] = h / h.copy()
+                        elif what == "idiv_hist_free":
+                            h /= h.copy()
+                        else:
+                            obs["ret"] = 1 / h
+                elif what == "add_array":
                     obs["ret"] = h + arr
                 elif what == "add_scalar":
                     obs["ret"] = h + 1
@@ -338,6 +350,17 @@ class PoolAdapter(Adapter):
             got = np.asarray(h.bins)
             if got.shape != exp.shape or not np.array_equal(got, exp):
                 fail("bins", exp.tolist(), got.tolist())
+            # every representation of the bins, not only the pairs (they are cached separately by the binning)
+            lefts, rights = np.asarray(h.bin_left_edges), np.asarray(h.bin_right_edges)
+            if lefts.shape != (n,) or rights.shape != (n,) or not (np.array_equal(lefts, exp[:, 0]) and np.array_equal(rights, exp[:, 1])):
+                fail("bins", exp.tolist(), {"bin_left_edges": lefts.tolist(), "bin_right_edges": rights.tolist()})
+            if consecutive(L) and n:
+                want = np.concatenate([exp[:, 0], exp[-1:, 1]])
+                for attr in ("numpy_bins", "edges"):
+                    e_ = np.asarray(getattr(h, attr))
+                    if e_.shape != want.shape or not np.array_equal(e_, want):
+                        fail("bins", want.tolist(), {attr: e_.tolist()})
+                        break
         if "freq" in view:
             got = np.asarray(h.frequencies)
             if got.shape != (n,) or not all(self._cmp_val(got[i], rec["freq"][i], den, False, prec) for i in range(n)):
@@ -486,6 +509,8 @@ class PoolAdapter(Adapter):
                 continue
             den = r["den"]
             dt = NP_DTYPE[r["dtype"]]
+            if den != 1 and np.dtype(dt).kind in "iu":
+                dt = np.float64       # fractional contents under an integer label (views without dtype): keep the values
             st = r["st"]
             stats = INVALID_STATISTICS
             if r["stv"] == "ok" and self.pe.affine is not None:
